@@ -6803,21 +6803,21 @@ bool SoPlexBase<R>::setSettings(const Settings& newSettings, const bool init)
 
    bool success = true;
 
-   *_currentSettings = newSettings;
-
+   // the current settings must not be overwritten beforehand: the setters compare with the value that is still in
+   // effect (e.g., SYNCMODE creates the rational LP when leaving SYNCMODE_ONLYREAL) and store the new value themselves
    for(int i = 0; i < SoPlexBase<R>::BOOLPARAM_COUNT; i++)
-      success &= setBoolParam((BoolParam)i, _currentSettings->_boolParamValues[i], init);
+      success &= setBoolParam((BoolParam)i, newSettings._boolParamValues[i], init);
 
    for(int i = 0; i < SoPlexBase<R>::INTPARAM_COUNT; i++)
-      success &= setIntParam((IntParam)i, _currentSettings->_intParamValues[i], init);
+      success &= setIntParam((IntParam)i, newSettings._intParamValues[i], init);
 
    for(int i = 0; i < SoPlexBase<R>::REALPARAM_COUNT; i++)
-      success &= setRealParam((RealParam)i, _currentSettings->_realParamValues[i], init);
+      success &= setRealParam((RealParam)i, newSettings._realParamValues[i], init);
 
 #ifdef SOPLEX_WITH_RATIONALPARAM
 
    for(int i = 0; i < SoPlexBase<R>::RATIONALPARAM_COUNT; i++)
-      success &= setRationalParam((RationalParam)i, _currentSettings->_rationalParamValues[i], init);
+      success &= setRationalParam((RationalParam)i, newSettings._rationalParamValues[i], init);
 
 #endif
 
